@@ -619,6 +619,25 @@ func (m *Model) ruleMONO(r *Results) {
 					nonstrict = true // old <= x
 				}
 			}
+			// a seeding function raises the mark whenever the given value is above it: its store
+			// depends on nothing but that comparison (not on the wall clock's reading, say)
+			if !returnsStamp {
+				foreign := ""
+				for _, ct := range controllingConds(fn, st.Block()) {
+					cd := condOf(ct.If)
+					if cd.Op == token.ILLEGAL || cd.Y == nil {
+						foreign = m.instrPos(ct.If)
+						continue
+					}
+					x, y := stripConv(cd.X), stripConv(cd.Y)
+					_, fx, okx := fieldLoad(x)
+					_, fy, oky := fieldLoad(y)
+					if !(okx && fx == hw && sameValue(y, val) || oky && fy == hw && sameValue(x, val)) {
+						foreign = m.instrPos(ct.If)
+					}
+				}
+				r.check(foreign == "", rule, key+" / seeding depends only on the comparison with the mark", pos, "the store is controlled by nothing but the comparison of the given value with the old mark", "whether the seeding function raises the mark also depends on another condition (at "+foreign+"): a persisted CAS that is above the mark can then be ignored, and the clock hands out that CAS (or a smaller one) again when the wall clock stands still or steps back")
+			}
 			switch {
 			case strict:
 				r.ok(rule, key+" = x under old<x", pos, "stored only when strictly above the previous value")
@@ -2084,6 +2103,42 @@ func (m *Model) ruleROWBUF(r *Results) {
 				continue
 			}
 			r.check(local, rule, key, m.instrPos(ret), "each row is returned in a buffer allocated by that call", "the returned row aliases a buffer that lives in the iterator and is overwritten by the next row: callers that keep rows (the pre-recorded iterator of in-memory buckets) see every row replaced by the last")
+		}
+		// the loops that assemble a row visit every column: they are left through their header
+		// only (a `break` on some column - a NULL one, say - drops the columns after it)
+		for _, b := range fn.Blocks {
+			if !inCycle(b) {
+				continue
+			}
+			// headers: blocks of a cycle with a predecessor outside it
+			isHeader := false
+			for _, p := range b.Preds {
+				if !sameCycle(p, b) {
+					isHeader = true
+				}
+			}
+			if !isHeader {
+				continue
+			}
+			bad := ""
+			for _, x := range fn.Blocks {
+				if x == b || !sameCycle(x, b) {
+					continue
+				}
+				for _, sx := range x.Succs {
+					if !sameCycle(sx, b) {
+						// leaving from the middle of the loop: fine only if it leaves the function
+						if _, isRet := sx.Instrs[len(sx.Instrs)-1].(*ssa.Return); isRet && len(sx.Instrs) <= 2 {
+							continue
+						}
+						if _, isPanic := sx.Instrs[len(sx.Instrs)-1].(*ssa.Panic); isPanic {
+							continue
+						}
+						bad = m.pos(x.Instrs[len(x.Instrs)-1].Pos())
+					}
+				}
+			}
+			r.check(bad == "", rule, m.declName(fn)+" / the row loop visits every column", m.pos(fn.Pos()), "the loop over the columns is left through its header only", "the loop that assembles a result row can be left from its middle (near "+bad+") and the function carries on: the columns after that point are missing from the row although the statement produced them")
 		}
 	}
 	if n == 0 {
